@@ -13,7 +13,7 @@ def _c(level, technique, ref, note=_NOTE):
 CLAIMS = {
     'C01': _c('Static proof obligations over every path of the public parse(): every call is inside a catch-all whose handlers '
               'cannot raise, every return is a {result,error} record, error is None or str() of a canonical singleton, '
-              'error set => result None, result never an error object; closed 9-entry code table, who-may-construct XLError; '
+              'error set => result None, result never an error object; closed 9-entry code table (enumerated by abstractly running from_message on an arbitrary argument), who-may-construct XLError; '
               'every reachable loop matches a termination idiom with the interval facts it needs. Not decided: cost of finite '
               'big-integer work and regex backtracking.',
               'path enumeration + catch-all/handler discipline + literal-table agreement + loop-variant idioms with guard-derived interval facts',
@@ -21,7 +21,7 @@ CLAIMS = {
     'C02': _c('Whole-package effect analysis from parse(): no write to module/class/instance state during evaluation (allow-list: '
               'emitter bookkeeping, traceback reset), no mutation of host-aliased values (taint through parameters, p[i], '
               'iteration, shallow copies), debug branches only print, shared exception singletons never keep frames, no '
-              'unbounded memo. Structural reason why outcome cannot depend on history; third-party retention not decided.',
+              'unbounded memo, a private token stream per parse. Structural reason why outcome cannot depend on history; third-party retention not decided.',
               'effect analysis + host-alias taint + typestate on exception singletons over the resolved call graph',
               'DESIGN.md 5 C02'),
     'C03': _c('Structural isolation rules: every yacc parse names a private cloned lexer, all instance state is born in __init__ '
@@ -31,9 +31,9 @@ CLAIMS = {
               'DESIGN.md 5 C03'),
     'C04': _c('The grammar as data: precedence table vs the stated order, the LALR automaton rebuilt from ast-extracted grammar '
               'and every (completed-operator-item, lookahead) cell of its action table checked against the oracle, production '
-              'shapes, action operand roles, lexeme/token/operator agreement, token order, generated-table agreement with the '
+              'shapes, operand roles decided by abstractly running each reduce action on symbolic operands, private token stream per parse, lexeme/token/operator agreement, token order, generated-table agreement with the '
               'checked-in parsetab; thorough: LR driver on all token strings to depth 3 vs precedence climbing. Exact arithmetic of the tree value not decided.',
-              'LALR table inspection (ply as table generator on extracted data) + regex AST + literal-table agreement',
+              'LALR table inspection (ply as table generator on extracted data) + abstract interpretation of reduce actions + regex AST + literal-table agreement',
               'DESIGN.md 5 C04'),
     'C05': _c('Lexer/grammar structure: whitespace token first and discarding, no other token absorbs whitespace, separator '
               'actions have the slot shape on every alternative with argument values opaque (shape abstract interpretation), the three '
@@ -41,8 +41,8 @@ CLAIMS = {
               'regex-AST queries + list-shape abstract interpretation of reduce actions + grammar family isomorphism',
               'DESIGN.md 5 C05'),
     'C06': _c('Conversion table exhaustive and consistent (36 cells: converter matches operand type, + and * symmetric), text/zero-divisor '
-              'exits, array dunder table, & by type tag, pre-1900 guard. Decides table structure, not float arithmetic.',
-              'literal-table agreement + type-tag abstract interpretation',
+              'exits, array dunder table, & by type tag, pre-1900 guard, the table\'s date converters as exact piecewise-affine serial maps. Decides table structure, not float arithmetic.',
+              'evaluated-table agreement + type-tag abstract interpretation + piecewise-affine converters',
               'DESIGN.md 5 C06'),
     'C07': _c('Comparator kernel computed for all ordered type-tag pairs (int,float,bool,str,none,datetime)^2 x (lt,gt,eq) by abstract '
               'interpretation and compared with the rank oracle; trichotomy, antisymmetry, derived operators. Transitivity follows '
@@ -50,15 +50,15 @@ CLAIMS = {
               'type-tag abstract interpretation (complete finite quotient of operand types)',
               'DESIGN.md 5 C07'),
     'C08': _c('Every operator entry point returns the operand error itself (left first) for all tag pairs; error literal aborts; raised '
-              'errors become values at the call boundary; trapping functions decided on tag/origin.',
+              'errors become values at the call boundary; functions that bail out on an error item end in that very object; trapping functions decided on tag/origin.',
               'type-tag + origin abstract interpretation, path rules on the call boundary',
               'DESIGN.md 5 C08'),
     'C09': _c('No SyntaxError can leave a reduce action (swallowed by ply), lookup order instance>registry>#NAME?, variable sentinel, '
-              'documented names subset of registry, predefined names, registered names lexable as FUNCTION tokens.',
+              'documented names subset of registry, predefined names, registered names lexable as FUNCTION tokens, name tokens handed on verbatim, no state on the resolution path (actions, callbacks, parse driver).',
               'exception-class propagation over the call graph + path dominance + table/doc agreement + regex AST',
               'DESIGN.md 5 C09'),
     'C10': _c('Exactly one emit per reference callback on every normal path, one callback per reduction, cell/range payload origin, '
-              'setter keeps falsy values, default blank.',
+              'setter keeps falsy values, default blank, private token stream per parse, exact label/index converters.',
               'path enumeration (exactly-once) + origin tracking + type-tag evaluation of setter closures',
               'DESIGN.md 5 C10'),
     'C11': _c('Structural clauses only: error item becomes the result (full drain), whole *args through the flattener, delegation table '
@@ -84,20 +84,20 @@ CLAIMS = {
               'DESIGN.md 5 C15'),
     'C16': _c('Structural clauses only: delegation table name->math function, coercion+error guard dominates every use (sibling rule), '
               'ATAN2 origin guard and argument roles, inclusive random range, PV closed form satisfies the annuity equation as a '
-              'polynomial identity. Floating-point accuracy NOT decided.',
+              'polynomial identity, a complex power is never returned, shared text-to-number coercion. Floating-point accuracy NOT decided.',
               'delegation-table agreement + guard dominance + polynomial normal form identity',
               'DESIGN.md 5 C16'),
     'C17': _c('Structural clauses only: documented domains enforced by dominating guards (interval facts), termination of loops, '
-              "two's-complement constants agree across three functions, ROMAN/ARABIC numeral tables agree, one character per digit. "
+              "the 40-bit two's-complement scheme as the piecewise-affine function HEX2DEC/DEC2HEX/DECIMAL compute over a symbolic integer, ROMAN/ARABIC numeral tables agree, one character per digit. "
               'Rounding inequalities and round-trip values NOT decided.',
-              'guard dominance with interval facts + constant/table agreement across siblings',
+              'guard dominance with interval facts + piecewise-affine abstract interpretation + table agreement across siblings',
               'DESIGN.md 5 C17'),
     'C18': _c('Structural clauses only: no wrap-around indexing (index facts), out-of-range is an error, whole row/column on 0/omitted, '
               'MATCH exact scan first-hit and #N/A exits, wildcard roles. MATCH +-1 semantics NOT decided.',
               'guard dominance with integer interval facts + path rules',
               'DESIGN.md 5 C18'),
     'C19': _c('Label regex language equals the label language (DFA over a 6-class alphabet with Python $ semantics), capture-group roles, '
-              'alphabet constant, row converters affine inverses, recomposition order, loop termination. Column converters mutually '
+              'alphabet constant, exact integer arithmetic in the column converters, row converters affine inverses, recomposition order, loop termination. Column converters mutually '
               'inverse (bijective base 26) NOT decided.',
               'regex-AST to DFA language equality + affine forms + dataflow roles',
               'DESIGN.md 5 C19'),
